@@ -5,7 +5,7 @@
    Models: C04_Model.v (machine level: int64 arithmetic, nil dereference, the tiny code paths, the wide facade),
    LRUOps.v (ideal LRU: recency list + trim).  This file contains statements closed by `exact` only. *)
 From Coq Require Import ZArith List Lia Bool Permutation.
-Require Import LRU Shard LRUOps C04_Model C04_Refine C04_Wide C04_Theorems C04_Check C04_Burst C04_Sia C04_Rem C04_Stat.
+Require Import LRU Shard LRUOps C04_Model C04_Refine C04_Wide C04_Theorems C04_Check C04_Burst C04_Sia C04_Rem C04_Stat C04_First.
 Import ListNotations.
 Open Scope Z_scope.
 
@@ -185,6 +185,20 @@ Theorem c04_uniform_size : forall cap0 c ops, cap_dom cap0 -> Forall op_dom ops 
   size cc = c * Z.of_nat (length (lst cc)) /\ size cc <= cap cc.
 Proof. exact uniform_size. Qed.
 
+(* first touches of a fresh wide cache: calls that only Set pairwise distinct keys (and read), every shard able to hold what
+   is Set into it: in EVERY order of the calls, for any routing and shard count, every item Set is in its shard at the end
+   with its value and size (single cache: c04_sets_all_present) - the final state the monitor first_ok expects *)
+Theorem c04_sets_all_present : forall v cap0 ops, cap_dom cap0 -> Forall op_dom ops -> Forall fop ops ->
+  NoDup (map wkeyw (flat_map (wr v) ops)) -> zsum (map snd (flat_map (wr v) ops)) <= cap0 ->
+  forall w, In w (flat_map (wr v) ops) -> In w (lst (fst (mrun v (new_lru cap0) ops))).
+Proof. exact sets_all_present. Qed.
+Theorem c04_wide_first_touch : forall v route capacity n h i,
+  wide_dom capacity n -> Forall wop_dom h -> Forall (fun o => fop (to_op o)) h ->
+  let ops := map to_op (sub Z wop wkey route i h) in
+  NoDup (map wkeyw (flat_map (wr v) ops)) -> zsum (map snd (flat_map (wr v) ops)) <= shard_cap capacity n ->
+  forall w, In w (flat_map (wr v) ops) -> In w (lst (fst (wide_run v route (wide_init capacity n) h) i)).
+Proof. exact wide_first_touch. Qed.
+
 (* non-vacuity: the hypotheses are satisfiable and the operations do evict (sized, tiny, wide) *)
 Theorem c04_demo_sized :
   let ops := [Set_ 1 10 2; Set_ 2 20 2; Get 1; Set_ 3 30 2; Peek 1; Exist 2; SetAndGetRemoved 1 11 4; Set_ 4 40 9; Set_ 5 50 1; Set_ 6 60 1;
@@ -242,6 +256,8 @@ Print Assumptions c04_sia_every_linearisation.
 Print Assumptions c04_first_insert_is_never_replaced.
 Print Assumptions c04_rem_every_linearisation.
 Print Assumptions c04_uniform_size.
+Print Assumptions c04_sets_all_present.
+Print Assumptions c04_wide_first_touch.
 Print Assumptions c04_demo_sized.
 Print Assumptions c04_demo_tiny.
 Print Assumptions c04_demo_wide.
